@@ -457,6 +457,8 @@ def run(ctx):
                             'bytes == FF type VLQ(len) payload (reference)')
         n += 1
     ctx.nontrivial(None, n)
+    from .. import coldstart
+    n += coldstart.phase(ctx, cold_jobs(), 'from_bytes(bytes) == message', offset=5)
     ctx.count('cases', n)
     ctx.exhaustive = True
     ctx.put_sample({'type': 'time_signature', 'denominator': '2**' + str(sh + 16), 'checked': 'bytes/from_bytes/reader'})
@@ -465,8 +467,34 @@ def run(ctx):
     ctx.put_sample({'type': 'text', 'len': 128, 'style': 'high'})
 
 
+def cold_jobs():
+    """Cold start: the first meta-message calls of a fresh interpreter, made by two threads."""
+    from ..coldstart import msg_want
+
+    def enc(t, a, raw):
+        return {'fn': 'meta_bytes', 'type': t, 'attrs': a, 'want': raw}
+
+    def dec(t, a, raw):
+        return {'fn': 'meta_from_bytes', 'arg': raw, 'want': msg_want(t, a, 'MetaMessage')}
+    tempo = ('set_tempo', {'tempo': 1}, [255, 81, 3, 0, 0, 1])
+    key = ('key_signature', {'key': 'F#m'}, [255, 89, 2, 3, 1])
+    ts = ('time_signature', {'numerator': 3, 'denominator': 8, 'clocks_per_click': 24, 'notated_32nd_notes_per_beat': 8},
+          [255, 88, 4, 3, 3, 24, 8])
+    text = ('text', {'text': 'ab\xe9'}, [255, 1, 3, 97, 98, 233])
+    seq = ('sequence_number', {'number': 513}, [255, 0, 2, 2, 1])
+    eot = ('end_of_track', {}, [255, 47, 0])
+    others = [dec(*key), enc(*key), dec(*ts), enc(*ts), dec(*text), enc(*text), dec(*seq), enc(*eot), dec(*tempo)]
+    mods = ['mido.midifiles.meta', 'mido.messages.checks']
+    return [{'modules': mods, 'jobs': [first, others], 'k': 1}
+            for first in ([dec(*tempo)], [enc(*tempo)], [dec(*key), enc(*ts)], [enc(*text), dec(*eot)])]
+
+
 def replay(ctx, case):
     k = case['kind']
+    if k == 'cold':
+        from .. import coldstart
+        coldstart.replay(ctx, case, 'from_bytes(bytes) == message')
+        return
     if k == 'msg':
         a = dict(case['attrs'])
         for kk, v in list(a.items()):
